@@ -502,10 +502,13 @@ class Case:
             chk = email.message_from_bytes(b, policy=policy.default)
             for h, label in (("from", "From"), ("to", "To"), ("cc", "Cc"), ("bcc", "Bcc"), ("rt", "Reply-To")):
                 want = [(name, addr) for _, name, addr in self.boxes[h]]
-                got = [(a.display_name, a.addr_spec) for a in chk[label].addresses] if chk[label] is not None else []
+                # raw UTF-8 headers (smtputf8) are read from bytes with surrogate escapes: undo
+                got = [(a.display_name.encode("utf-8", "surrogateescape").decode("utf-8", "replace"), a.addr_spec)
+                       for a in chk[label].addresses] if chk[label] is not None else []
                 if want != got:
                     return False
-            if self.subj_words and str(chk["Subject"]).split() != self.subj_words:
+            if self.subj_words and str(chk["Subject"]).encode("utf-8", "surrogateescape").decode("utf-8", "replace").split() \
+                    != self.subj_words:
                 return False
             return True
         except Exception:
